@@ -24,6 +24,7 @@ PROGS = collections.OrderedDict([
     ("scalarvar", H + "\nfloat x = {a}\nG(x) | 0\nH() | 0\n"),
     ("arrayparams", H + "\nfloat array A =\n    {a}, 1\n    2, {b}\nG({a}) | 0\n"),
     ("wholearray", H + "\nfloat array A[1, 2] =\n    {P}\nG({a}) | 0\n"),
+    ("wholearray2x2", H + "\nfloat array A[2, 2] =\n    {P}\nG(A, {a}) | 0\nH(k=A[3]) | 1\n"),
     ("options", H + "target g (l=[1, 2], s=\"a\")\n\nG({a}) | 0\nG | 1\n"),
     ("twoparams", H + "\nG({a}+{b}, k={a}*2) | [0, 1]\nG({b}) | 1\n"),
     ("loop", H + "\nfor int i in 0:2\n    G({a}, i) | i\n"),
@@ -31,7 +32,21 @@ PROGS = collections.OrderedDict([
 ])
 V1 = {"a": 0.5, "b": 2.0, "P": [[1.0, 2.0]]}
 V2 = {"a": -1.0, "b": 3.0, "P": [[3.0, 4.0]]}
-EVENTS = ["dumps", "read", "graph", "call1", "call2", "call1b", "dumpsI0", "graphI0", "graphI1", "match0", "match1",
+ARRAY_PROGS = ("wholearray", "wholearray2x2")     # templates with an array-valued parameter: the caller may pass an ndarray of its own
+
+
+def caller_values(key):
+    """fresh argument objects of the caller for one replay: the SAME ndarray is handed to every `call1n`"""
+    import numpy as np
+    shape = (2, 2) if key == "wholearray2x2" else (1, 2)
+    return {"a": 0.5, "b": 2.0, "P": (np.arange(shape[0] * shape[1], dtype=np.float64).reshape(shape) + 1.0)}
+
+
+def _p(vals, key):
+    if key == "wholearray2x2" and not hasattr(vals["P"], "shape"):
+        return dict(vals, P=[[vals["P"][0][0], vals["P"][0][1]], [5.0, 6.0]])
+    return vals
+EVENTS = ["dumps", "read", "graph", "call1", "call2", "call1b", "call1n", "mutcaller", "dumpsI0", "graphI0", "graphI1", "match0", "match1",
           "mut0:arg", "mut0:list", "mut0:arr", "mut0:opt", "mut0:op", "mut0:gate", "mut0:var", "mut0:modes", "mut0:rrt", "mut1:arg", "mut1:arr"]
 MAXINST = 3
 
@@ -59,7 +74,9 @@ def pvals(T, vals):
     return {k: vals[k] for k in names}
 
 
-def enabled(ev, ninst, is_template):
+def enabled(ev, ninst, is_template, key=None):
+    if ev in ("call1n", "mutcaller") and key not in ARRAY_PROGS:
+        return False
     if ev.startswith("call"):
         return is_template and ninst < MAXINST
     for tag in ("I0", "h0", "t0:", "I1", "h1", "t1:"):
@@ -71,8 +88,8 @@ def enabled(ev, ninst, is_template):
     return True
 
 
-def apply_event(T, inst, ev):
-    """returns index of the instance the event is allowed to change (or None)"""
+def apply_event(T, inst, ev, key=None, caller=None):
+    """returns index of the instance the event is allowed to change (or None; 'caller' for the caller's own array)"""
     import blackbird
     import numpy as np
     from blackbird.utils import to_DiGraph, match_template
@@ -85,9 +102,14 @@ def apply_event(T, inst, ev):
     elif ev == "graph":
         to_DiGraph(T)
     elif ev in ("call1", "call1b"):
-        inst.append(T(**pvals(T, V1)))
+        inst.append(T(**pvals(T, _p(V1, key))))
     elif ev == "call2":
-        inst.append(T(**pvals(T, V2)))
+        inst.append(T(**pvals(T, _p(V2, key))))
+    elif ev == "call1n":
+        inst.append(T(**pvals(T, caller)))          # the caller's own ndarray, the same object at every call
+    elif ev == "mutcaller":
+        caller["P"].flat[0] = -55.0                 # the caller goes on using its array after the calls
+        return "caller"
     elif ev.startswith("dumpsI"):
         common.dumps(inst[int(ev[6:])])
     elif ev.startswith("graphI"):
@@ -154,15 +176,18 @@ def build(key, hist):
     viol = []
     first_call = {}
     is_t = T.is_template()
+    caller = caller_values(key) if key in ARRAY_PROGS else None
+    cdig = lambda: None if caller is None else repr(caller["P"].tolist())
     for n, ev in enumerate(hist):
         last = (n == len(hist) - 1)
         if last:
             bT = digest(T)
             bI = [digest(i) for i in inst]
             expl_before = explain(T)
-        touched = apply_event(T, inst, ev)
+            bC = cdig()
+        touched = apply_event(T, inst, ev, key, caller)
         if ev.startswith("call"):
-            tag = "v2" if ev == "call2" else "v1"
+            tag = "v2" if ev == "call2" else ("v1n:" + cdig() if ev == "call1n" else "v1")
             dnew = digest(inst[-1])
             if tag in first_call and first_call[tag] != dnew and last:
                 viol.append(("C13/instantiation-not-reproducible", "%s after %r differs from the first instance with the same values: %s" % (ev, hist[:-1], explain(inst[-1])[:300])))
@@ -173,6 +198,9 @@ def build(key, hist):
             aT = digest(T)
             aI = [digest(i) for i in inst]
             kind = ev.split(":")[0].rstrip("0123456789").replace("I", "")
+            if cdig() != bC and touched != "caller":
+                viol.append(("C13/%s-changes-the-callers-array" % (kind if not ev.startswith("mut") else "mutating-an-instance"),
+                             "event %s after %r changed the array the caller had passed as a parameter value: %s -> %s" % (ev, hist[:-1], bC, cdig())))
             if aT != bT:
                 viol.append(("C13/%s-changes-the-program" % (kind if not ev.startswith("mut") else "mutating-an-instance"),
                              "event %s after %r changed the template/program: before %s ;; after %s" % (ev, hist[:-1], expl_before[:400], explain(T)[:400])))
@@ -180,7 +208,7 @@ def build(key, hist):
                 if b != a and k != touched:
                     viol.append(("C13/%s-changes-another-instance" % (kind if not ev.startswith("mut") else "mutating-an-instance"),
                                  "event %s after %r changed instance %d: %s" % (ev, hist[:-1], k, explain(inst[k])[:300])))
-    state = (digest(T),) + tuple(digest(i) for i in inst)
+    state = (digest(T),) + tuple(digest(i) for i in inst) + ((cdig(),) if caller is not None else ())
     return state, viol, len(inst), is_t
 
 
@@ -207,7 +235,7 @@ def run(ctx):
             for h in frontier:
                 ninst = hist_ninst(h)
                 for ev in EVENTS:
-                    if enabled(ev, ninst, is_t):
+                    if enabled(ev, ninst, is_t, key):
                         tasks.append((key, h + (ev,)))
             if len(tasks) > (40000 if ctx.quick else 400000):
                 cap_hit = True
@@ -239,7 +267,7 @@ def run(ctx):
                    "BFS over event sequences to the stated depth with de-duplication on the state; every transition replays its whole history on freshly loaded objects",
            "exhaustive": not cap_hit}
     return {"coverage": cov, "violations": V.records(),
-            "assumptions": ["mutations of the returned dependency graph are not events (the property speaks of programs and instances)", "the digest observes programs through their public attributes and dumps()"]}
+            "assumptions": ["for templates with an array-valued parameter the caller's own ndarray (one object, passed to every `call1n`, modified by `mutcaller`) is part of the state", "mutations of the returned dependency graph are not events (the property speaks of programs and instances)", "the digest observes programs through their public attributes and dumps()"]}
 
 
 def hist_ninst(h):
